@@ -275,6 +275,43 @@ func (o orderedIter) All() iter.Seq2[cedar.PolicyID, *cedar.Policy] {
 	}
 }
 
+// onceIter is a PolicyIterator over a stream: the policies can be walked once (a decoder, a
+// cursor, a channel); every later All() yields nothing. shiftIter yields the same policies in
+// a different rotation on every call.
+type onceIter struct {
+	orderedIter
+	used *bool
+}
+
+func (o onceIter) All() iter.Seq2[cedar.PolicyID, *cedar.Policy] {
+	return func(yield func(cedar.PolicyID, *cedar.Policy) bool) {
+		if *o.used {
+			return
+		}
+		*o.used = true
+		o.orderedIter.All()(yield)
+	}
+}
+
+type shiftIter struct {
+	orderedIter
+	calls *int
+}
+
+func (o shiftIter) All() iter.Seq2[cedar.PolicyID, *cedar.Policy] {
+	return func(yield func(cedar.PolicyID, *cedar.Policy) bool) {
+		k := len(o.order)
+		r := *o.calls
+		*o.calls++
+		for j := 0; j < k; j++ {
+			i := o.order[(j+r)%k]
+			if !yield(o.ids[i], o.pols[i]) {
+				return
+			}
+		}
+	}
+}
+
 func orders(k int) [][]int {
 	if k <= 4 {
 		return core.Perms(k)
@@ -392,6 +429,13 @@ func checkSeq(t *core.T, items []item) {
 		oi.order = o
 		dec, diag = cedar.Authorize(oi, entities, request)
 		cmp("Authorize(custom-iterator)", dec, diag)
+	}
+	if len(ords) > 0 {
+		oi.order = ords[0]
+		dec, diag = cedar.Authorize(onceIter{oi, new(bool)}, entities, request)
+		cmp("Authorize(single-use-iterator)", dec, diag)
+		dec, diag = cedar.Authorize(shiftIter{oi, new(int)}, entities, request)
+		cmp("Authorize(iterator-in-another-order-on-every-call)", dec, diag)
 	}
 	// batch with no variables has its own copy of the loop
 	n := 0
